@@ -334,8 +334,11 @@ class BaseUpdateMixin(BaseManifestLoaderMixin, BaseOpenPGPMixin):
         if args.openpgp_id is not None:
             self.init_kwargs['openpgp_keyid'] = args.openpgp_id
         if args.profile is not None:
-            self.init_kwargs['profile'] = (
-                get_profile_by_name(args.profile))
+            try:
+                self.init_kwargs['profile'] = (
+                    get_profile_by_name(args.profile))
+            except KeyError:
+                argp.error(f'unknown profile: {args.profile}')
         if args.sign is not None:
             self.init_kwargs['sign_openpgp'] = args.sign
 
